@@ -178,6 +178,41 @@ def install_cli(reg):
                result_maker=lambda ex, st, ctx: VExt("ArgParser"), note="argparse parser construction (assumed total)"))
 
 
+# ------------------------------------------------------------ termination --
+TERM_READERS = ("_read_byte", "_read_bytes", "_read_number", "_read_uint32", "_read_uint64", "read")
+# loops whose termination argument is outside the rules of pyvc/term.py: reported as NOT decided (never counted as proved)
+TERM_UNPROVEN = {
+    ("doc_extractor.py", "_DocReader._extract_png_images_from_bytes", 0),   # `while True` driven by bytes.find(): variant len(data) - offset
+    ("pdf_extractor.py", "_TableExtractor._extract", 0),                      # 125-line line-classifier: more than 4000 paths per iteration
+    ("pdf_extractor.py", "_TableExtractor._normalize_values", 0),             # list shrinks by `del merged[k]` inside a for/else shape
+}
+
+
+def _term_files(repo=None):
+    from pyvc import term
+    out = []
+    for f in loader.all_package_files(repo):
+        if "/sharepoint_io/" in f:
+            continue
+        if term.while_loops(loader.module(f, repo)):
+            out.append(f)
+    return out
+
+
+def _make_term(rel):
+    def run(repo, tier):
+        from pyvc import term
+        obls, listed = term.termination_obligations("C01", repo, [rel], readers=TERM_READERS, unproven_ok=TERM_UNPROVEN)
+        return {"obligations": obls, "not_decided": listed}
+    run.__name__ = f"termination[{rel.split('/')[-1]}]"
+    return run
+
+
+EXTRA = [_make_term(f) for f in _term_files()]
+BOUNDED = ["termination NOT decided for: doc_extractor._extract_png_images_from_bytes while-0, pdf_extractor._TableExtractor._extract while-0, "
+           "pdf_extractor._TableExtractor._normalize_values while-0 (outside the variant rules of pyvc/term.py); `for` loops terminate when their "
+           "iterable is finite (ranges / lists / bytes: yes; own generators reduce to their loops); recursion over finite trees (TREE-FINITE) not discharged here"]
+
 EXECUTOR_KW = {}
 for _rel, _fn in registered_extractors():
     EXECUTOR_KW[f"{_rel}::{_fn}"] = {"merge": True, "abstract": True, "inline_calls": False}
